@@ -222,10 +222,12 @@ let c19_run c =
   let log_status w = match w.log with WH c :: _ -> int_of_z c | _ -> 0 in
   let log_body w = List.concat (List.map (function W b -> b | _ -> []) w.log) in
   match c with
-  | L [A "h"; A helper; st; vk; preset; encj; encx] ->
+  | L (A "h" :: A helper :: st :: vk :: preset :: encj :: encx :: prior) ->
     let status = z_of_int (int st) and vk = int vk and preset = preset_of preset in
     let sbytes = bytes_of (List.nth c19_strs (vk mod 8)) in
     let r0 = rsp_init preset [] in
+    (* optional: a status recorded by an earlier handler (SetStatus, nothing written yet) *)
+    let r0 = match prior with [p] -> { r0 with rw = write_header (z_of_int (int p)) r0.rw } | _ -> r0 in
     let fin r = ensure r.rw in
     let plain ct data = let r = ctx_blob status ct data r0 in (r, fin r) in
     let out r w body nerr loc = L [A "h"; sint (log_status w); sct r.ctype; body; sint nerr; sstr loc] in
